@@ -197,10 +197,14 @@ theorem create_over_dups (now : Int) (c : Coll) (ix : Index) (a b : Val × Val)
   have hpre : preCreate now c ix = .error .dupKey := by
     unfold preCreate
     simp only [hu, if_true, expire_noTtl hnt, bind, Except.bind, hpc]
+  have hrc : refusedCreate now c ix = c := by
+    unfold refusedCreate
+    simp only [hu, if_true, expire_noTtl hnt]
   unfold createIndexColl
   rw [hfind]
   simp only
   rw [go_eq, hpre]
+  simp only [hrc]
 
 /-! ### the duplicate insert is rejected with DuplicateKeyError -/
 
